@@ -12,26 +12,30 @@ from translator import csmini
 LEVEL = "proof"
 
 MANIFEST = {
-    "technique": "Coq proof (per-row token expansion from the template's PER_GUARDTRANSITION shape, brace-parser lemma, execution vs the table interpreter's step) + tokenising the real generated classes",
-    "text": ("Theorems C10_handlers (for every table, state, event, guard oracle: the handler body has matching braces and executes exactly the interpreter's "
-             "step for the rows of (state,event) in table order; state object and estate enum agree afterwards), C10_handlers_listed_only, C10_state_classes "
-             "(class for every state incl. target-only ones, and for nothing else), C10_context_decls (every guard, (action,event) signature, hook, event class with members, Is/Trigger method, enum entry, base handler and state class a row needs is declared exactly once, as (kind, name, params) triples of Model/Decls.v over Gen/DeclTmpl.v). Tie: the PER_GUARDTRANSITION shape and the nesting "
-             "around it are regenerated from TEMPLATEInternals.cs into Gen/CsTmpl.v; the real <Name>Internals.cs is tokenised per class / per Trigger<Event> override "
-             "and compared with CsSM.cs_handler, and independently executed by a small Python token interpreter against a Python reading of the property; "
-             "context/interface declarations extracted by regex and counted."),
-    "note": ("No C# compiler: the statements are about the emitted token structure and the model's reading of Exit<S>()/Enter<T>() (checked textually by the translator), "
-             "not about csc accepting the files. Context declarations are proved for names, parameter lists and multiplicities; the triples are read out of the real files by regex and compared with Decls.decls_file. "
-             "The class/handler nesting (PER_STATETRANSITION / PER_EVENTTRANSITION) is modelled in closed form, its template shape is checked by the translator."),
+    "technique": "Coq proof (handler token expansion from the template shape, brace-parser lemma, helper methods as source-derived statement IR with a semantics, whole-machine run vs the table interpreter) + execution of the REAL generated C# text by a statement interpreter",
+    "text": ("Theorems C10_sem / C10_init (for every well-formed table, event sequence and guard oracle: constructing the machine -- constructor, Reset(), Enter<StateT>() "
+             "executed from the IR that translator/cstmpl.py parses out of the templates -- runs the first state's entry hook exactly once, and every Trigger<e>, dispatched to "
+             "the current state object's class, makes exactly the interpreter's callbacks and leaves estate at its state; a self transition is exit then entry), C10_handlers "
+             "(per handler, Exit<S>()/Enter<T>() executed from their IR), C10_handlers_listed_only, C10_state_classes, C10_context_decls. Tie: handler token shape, helper-method "
+             "IR and the Trigger<Event> shape regenerated into Gen/CsTmpl.v on every run; the real <Name>Internals.cs is tokenised and compared with CsSM.cs_handler; "
+             "the real Context/Internals/StateMachine files are PARSED AND EXECUTED (translator/csmini.py: classes, fields, virtual dispatch, generics, new/is/as, "
+             "if/return, assignments, calls; non-threaded preprocessor branch) under a recording context for random event sequences and guard bits and compared with a "
+             "Python reading of the property; extracted run_cs = extracted table_interp_quiet; declaration triples vs Decls.decls_file."),
+    "note": ("No C# compiler exists here: 'executed' means executed by the harness's own interpreter of the C# subset the generated files use (it refuses anything outside "
+             "the subset); member types and C# name lookup are not checked by anything. The threaded configuration (SM_THREAD_1: queue + dispatch thread) is not modelled; "
+             "the class/handler nesting (PER_STATETRANSITION / PER_EVENTTRANSITION) is modelled in closed form, its template shape is checked by the translator."),
 }
 RULE = ("random well-formed tables (as C08) incl. colliding signature concatenations; C# primitive member types with (trailing) defaults; StateMachineThread 0/1/absent; "
-        "every listed (state,event) handler executed under random guard bits. non-trivial = some handler has more than one row or a row without guard/target; "
-        "distinct = (table, interface)")
-ASSUMPTIONS = ["forallb row_ok T (identifier domain as C08)", "defaults only on a trailing run of an event's members; member types are C# primitive types",
-               "identifiers are not C# keywords / names fixed by the template (Event is a C# keyword only in lower case; IDispatchable, <Name>State ...)"]
+        "random event sequences (0..12 events, incl. events the table never mentions) with arguments and random guard bits executed on the real generated text; "
+        "every listed (state,event) handler additionally executed in isolation under six guard vectors. non-trivial = some handler has more than one row or a row "
+        "without guard/target; distinct = (table, interface)")
+ASSUMPTIONS = ["wf_table T (identifier domain as C08)", "defaults only on a trailing run of an event's members; member types are C# primitive types",
+               "non-threaded configuration (the #else branch of SM_THREAD_1) for the executed behaviour",
+               "identifiers are not C# keywords / names fixed by the template (IDispatchable, <Name>State ...)"]
 TRUSTED = ["Coq 8.16.1 kernel (coqc; coqchk in the thorough tier)", "axioms: none",
-           "translator/cstmpl.py (regex classification of the PER_GUARDTRANSITION lines and of the surrounding class/handler nesting, fail closed)",
-           "extraction: ExtrOcamlBasic + ExtrOcamlNativeString; ocaml/cmds_sm.ml", "harness C# tokenizer (brace matching + statement regexes)",
-           "modelled, not verified: C# semantics of if/return/blocks, virtual dispatch to the current state object's Trigger<Event>; no C# compiler is available"]
+           "translator/cstmpl.py + translator/csmini.py (regex classification of the PER_GUARDTRANSITION lines and of the class/handler nesting; parser of the helper methods into the statement IR; fail closed)",
+           "extraction: ExtrOcamlBasic + ExtrOcamlNativeString; ocaml/cmds_sm.ml", "harness C# tokenizer and the csmini interpreter (its reading of new/is/as/virtual calls/generics IS the assumed C# semantics)",
+           "modelled, not verified: C# semantics of the statement subset; no C# compiler is available"]
 ALLOWED_AXIOMS = []
 
 NAME = "X"
